@@ -329,7 +329,7 @@ def gen_eval(rng, tier):
   nx = len(xs)
   batches = [None] + rng.sample([1, 2, 3, 5, 7, max(nx, 1), nx + 3, 64], 2)
   return {"kind": "eval", "comps": comps, "pts": pts, "models": models, "product": product, "r2": r2, "r2_kind": rkind,
-          "r2_as_array": rng.random() < 0.3, "reps": reps, "reps_none": nrep == 0 and rng.random() < 0.5, "adds": adds,
+          "r2_as_array": rng.random() < 0.3, "reassign": rng.random() < 0.4, "reps": reps, "reps_none": nrep == 0 and rng.random() < 0.5, "adds": adds,
           "xs": xs, "batches": batches}
 
 
@@ -395,7 +395,7 @@ def gen_exact(rng):
   rng.shuffle(xs)
   nx = len(xs)
   return {"kind": "eval", "comps": comps, "pts": pts, "models": models, "product": product, "r2": r2, "r2_kind": "exact-" + place,
-          "r2_as_array": False, "reps": reps, "reps_none": False, "adds": [], "xs": xs, "batches": [None, rng.choice([1, 2, 3]), nx + 1]}
+          "r2_as_array": False, "reassign": rng.random() < 0.4, "reps": reps, "reps_none": False, "adds": [], "xs": xs, "batches": [None, rng.choice([1, 2, 3]), nx + 1]}
 
 
 def gen_loop(rng):
@@ -640,7 +640,12 @@ def check_eval(ctx, case):
 
   def build():
     fm = make_failure_model(case)
-    af = ProbabilityOfImprovementSearch(dom, fm, r2_arg, None if case["reps_none"] else reps.copy())
+    if case.get("reassign"):
+      # the radius is re-assigned on an existing function, as search_strategy_optimization does after every pick
+      af = ProbabilityOfImprovementSearch(dom, fm, 3.0 * abs(r2) + 0.37, None if case["reps_none"] else reps.copy())
+      af.distance_parameter = r2_arg
+    else:
+      af = ProbabilityOfImprovementSearch(dom, fm, r2_arg, None if case["reps_none"] else reps.copy())
     for a in case["adds"]:
       af.add_normalized_repulsor_point(numpy.array(a, dtype=float).reshape(len(a), d))
     return fm, af
@@ -999,7 +1004,7 @@ CORPUS = [
    "pts": [[1.0, 1, 0, 0, -3.0], [4.0, 0, 1, 0, 2.0], [9.0, 0, 0, 1, 4.0], [6.0, 1, 0, 0, 0.5]],
    "models": [{"type": "cdf", "vals": [0.1, 0.7, -0.4, 0.3], "threshold": 0.2, "noise": 1e-4},
               {"type": "logistic", "vals": [1.0, 2.0, 0.0, 3.0], "threshold": 1.5, "noise": 1e-3}],
-   "product": True, "r2": 0.25, "r2_kind": "arbitrary", "r2_as_array": False, "reps": [[0, 1, 0, 0, 0]], "reps_none": False, "adds": [],
+   "product": True, "r2": 0.25, "r2_kind": "arbitrary", "r2_as_array": False, "reassign": True, "reps": [[0, 1, 0, 0, 0]], "reps_none": False, "adds": [],
    "xs": [[0, 1, 0, 0, 3.6], [0, 1, 0, 0, -4.9], [4, 1, 0, 0, 3], [2, 1, 0, 0, 4.5], [0, 0, 0, 1, 0], [0, 0, 1, 0, 0], [7, 1, 0, 0, 0],
           [10, 1, 0, 0, -1.5], [5, 1, 0, 0, 3], [3, 1, 0, 0, 4.5], [5, 1, 0, 0, 0], [0, 1, 0, 0, 5]],
    "batches": [None, 1, 5]},
@@ -1007,7 +1012,7 @@ CORPUS = [
   {"kind": "eval", "comps": [{"t": "double", "e": [0.0, 4.0]}, {"t": "cat", "e": [1, 2, 3]}],
    "pts": [[1.0, 1, 0, 0], [2.0, 0, 1, 0], [3.5, 0, 0, 1]],
    "models": [{"type": "logistic", "vals": [0.0, 1.0, 2.0], "threshold": 1.0, "noise": 1e-3}],
-   "product": True, "r2": 0.0625, "r2_kind": "exact-on", "r2_as_array": False, "reps": [[2.0, 0, 1, 0]], "reps_none": False, "adds": [],
+   "product": True, "r2": 0.0625, "r2_kind": "exact-on", "r2_as_array": False, "reassign": False, "reps": [[2.0, 0, 1, 0]], "reps_none": False, "adds": [],
    "xs": [[3.0, 0, 1, 0], [1.0, 0, 1, 0], [2.9375, 0, 1, 0], [2.0, 0, 1, 0], [2.0, 1, 0, 0], [2.0, 0.5, 0.5, 0.25]],
    "batches": [None, 2, 7]},
 ]
